@@ -1043,3 +1043,68 @@ Proof. apply g_cut1_open_total. exact cutlaws_f64. Qed.
 Lemma nan_edge_loses_totality :
   cut1F (L := Z) neg_infinity infinity true true [nan] [100; 101]%Z (Some one) = ErrItem.
 Proof. vm_compute. reflexivity. Qed.
+
+(* ================================================================================================== *)
+(* Part 4: the inputs the quantifier excludes, as the code treats them (Model/Binning.v `vcut_call`)     *)
+Section CutCallFacts.
+  Context {A L : Type}.
+  Variables ltb leb : A -> A -> bool.
+  Variables tmin tmax : A.
+
+  Lemma unwrap_all_some (es : list (option A)) l : unwrap_all es = Some l <-> es = map Some l.
+  Proof.
+    revert l; induction es as [|[e|] r IH]; intros l; cbn [unwrap_all].
+    - split; [intros H; injection H as <-; reflexivity|]. destruct l; [reflexivity|discriminate].
+    - destruct (unwrap_all r) as [l'|] eqn:E.
+      + split.
+        * intros H. injection H as <-. cbn. f_equal. apply IH. reflexivity.
+        * destruct l as [|a l]; [discriminate|]. cbn. intros H. injection H as -> Hr.
+          apply IH in Hr. injection Hr as ->. reflexivity.
+      + split; [discriminate|]. destruct l as [|a l]; [discriminate|]. cbn. intros H. injection H as _ Hr.
+        apply IH in Hr. discriminate.
+    - split; [discriminate|]. destruct l; discriminate.
+  Qed.
+
+  Lemma unwrap_all_none (es : list (option A)) : unwrap_all es = None <-> In None es.
+  Proof.
+    induction es as [|[e|] r IH]; cbn [unwrap_all In].
+    - split; [discriminate|tauto].
+    - destruct (unwrap_all r); split; try discriminate.
+      + intros [H|H]; [discriminate|]. apply IH in H. discriminate.
+      + intros _. right. apply IH. reflexivity.
+      + intros _. reflexivity.
+    - split; [intros _; left; reflexivity|reflexivity].
+  Qed.
+
+  (* the guard comes first: a label count that does not match is `Err` - never a panic - whatever the edges hold; with a
+     matching count a null edge of an Option<_> edge vector panics at call time (`Option::unwrap()` on `None`), and
+     without null edges the call is `vcut` on the unwrapped edges *)
+  Theorem vcut_call_spec right ab (edges : list (option A)) (labels : list L) xs :
+    (count_ok ab edges labels = false -> vcut_call ltb leb tmin tmax right ab edges labels xs = Ok None) /\
+    (count_ok ab edges labels = true -> In None edges ->
+       vcut_call ltb leb tmin tmax right ab edges labels xs = Panic UnwrapNone) /\
+    (forall es, edges = map Some es ->
+       vcut_call ltb leb tmin tmax right ab edges labels xs = Ok (vcut ltb leb tmin tmax right ab es labels xs)).
+  Proof.
+    unfold vcut_call, vcut. split; [intros ->; reflexivity|]. split.
+    - intros -> Hn. apply unwrap_all_none in Hn. rewrite Hn. reflexivity.
+    - intros es ->. unfold count_ok. rewrite map_length.
+      destruct (if ab then _ else _); [|reflexivity].
+      rewrite (proj2 (unwrap_all_some (map Some es) es) eq_refl). reflexivity.
+  Qed.
+
+  (* a label type without a null: the iteration unwinds exactly when the input holds a null value *)
+  Theorem collect_items_spec (nullable right ab : bool) (es : list A) (labels : list L) (xs : list (option A)) :
+    collect_items nullable (map (cut1 ltb leb tmin tmax right ab es labels) xs) =
+    if negb nullable && existsb (fun x => match x with None => true | Some _ => false end) xs
+    then Panic OtherPanic else Ok (map (cut1 ltb leb tmin tmax right ab es labels) xs).
+  Proof.
+    unfold collect_items.
+    assert (E : existsb item_is_null (map (cut1 ltb leb tmin tmax right ab es labels) xs)
+                = existsb (fun x => match x with None => true | Some _ => false end) xs).
+    { induction xs as [|x r IH]; [reflexivity|]. cbn [map existsb]. rewrite IH. f_equal.
+      destruct x as [v|]; [|reflexivity].
+      destruct (g_cut1_cases ltb leb tmin tmax right ab es labels v) as [[l El]|El]; rewrite El; reflexivity. }
+    rewrite E. reflexivity.
+  Qed.
+End CutCallFacts.
